@@ -33,7 +33,6 @@ def run(prop, quiet=False):
     cat = catalogue(prop)
     if not cat:
         print('SELFTEST %s: no mutants catalogued' % prop)
-        return 0
     repo = os.environ.get('FCVERIF_REPO', '/repo')
     results = []
     for name, patch in cat:
@@ -59,6 +58,26 @@ def run(prop, quiet=False):
                 results.append((name, 'survived', ''))
         finally:
             shutil.rmtree(scratch, ignore_errors=True)
+    # behaviour-preserving variants of this property must stay silent
+    benign = []
+    for bp in sorted(glob.glob(os.path.join(VERIF, 'benign', '*%s*.patch' % prop))):
+        name = 'benign/' + os.path.basename(bp)[:-6]
+        scratch = tempfile.mkdtemp(prefix='fcverif-bn-')
+        try:
+            dst = os.path.join(scratch, 'repo')
+            shutil.copytree(repo, dst, ignore=shutil.ignore_patterns('target', '.git'), symlinks=True)
+            r = subprocess.run(['patch', '-p1', '-s', '-f', '-i', bp], cwd=dst, capture_output=True, text=True)
+            if r.returncode != 0:
+                benign.append((name, 'patch-does-not-apply', ''))
+                continue
+            env = dict(os.environ, FCVERIF_REPO=dst, FCVERIF_NO_EVIDENCE='1', FCVERIF_NO_SELFTEST='1')
+            r = subprocess.run([sys.executable, '-m', 'fcverif', prop, '--tier', 'quick'], cwd=VERIF, env=env, capture_output=True, text=True)
+            fails = [l for l in r.stdout.splitlines() if l.startswith(('FAIL', 'BUILD'))]
+            benign.append((name, 'silent' if r.returncode == 0 else 'false-alarm', fails[0][:200] if fails else ''))
+        finally:
+            shutil.rmtree(scratch, ignore_errors=True)
+    for name, s, d in benign:
+        print('%s %s %s %s' % ('BENIGN-SILENT' if s == 'silent' else ('CHECKER-FALSE-ALARM' if s == 'false-alarm' else 'BENIGN-SKIPPED'), prop, name, d))
     killed = sum(1 for _, s, _ in results if s == 'killed')
     for name, s, d in results:
         tag = 'MUTANT-KILLED' if s == 'killed' else ('CHECKER-GAP' if s == 'survived' else 'MUTANT-SKIPPED')
@@ -71,6 +90,9 @@ def run(prop, quiet=False):
         ev['coverage']['mutants_total'] = len(results)
         ev['coverage']['mutants_killed'] = killed
         ev['coverage']['mutants'] = [{'name': n, 'outcome': s, 'first_report': d} for n, s, d in results]
+        ev['coverage']['benign_total'] = len(benign)
+        ev['coverage']['benign_silent'] = sum(1 for _, s, _ in benign if s == 'silent')
+        ev['coverage']['benign'] = [{'name': n, 'outcome': s, 'report': d} for n, s, d in benign]
         json.dump(ev, open(evp, 'w'), indent=1)
     except Exception as e:
         print('could not update evidence: %s' % e)
